@@ -35,7 +35,10 @@ def _run_unit(case):
     return {"error": None, "digitize": [int(v) for v in d], "index": [int(v) for v in idx]}
 
 
-def _run(case):
+INTKEY = {"a": 1, "b": 2, "c": 3, "x": 10, "y": 20, "zz": 99}
+
+
+def _run(case, prior=False):
     impl.load()
     import numpy as np
     import pandas as pd
@@ -44,19 +47,83 @@ def _run(case):
     from vivarium import Component
     from vivarium.framework.engine import SimulationContext
 
+    forms = case.get("forms", {})
+    if forms.get("prior") and not prior:
+        # an earlier simulation in this process, with the opposite extrapolation setting and the rows reversed (its results are dropped)
+        ex = case.get("extrapolate")
+        _run(dict(case, forms=dict(forms, prior=False), extrapolate=(False if ex in (True, None) else True), rows=case["rows"][::-1],
+                  untrack=[], calls=[dict(c, where="outside", after=0, idx=c["idx"] if isinstance(c["idx"], list) else "all")
+                                      for c in case["calls"][:1]]), prior=True)
     nk, params = len(case["keys"]), case["params"]
     pop_cols = case["keys"] + [p for p in params if p != "year"]
+    kd = forms.get("key_dtype", "str")
+    seq = tuple if forms.get("tuples") else list
+
+    def keycol(values, data_side):
+        """a key column in the dtype of the case: str (object), int64 or pandas categorical"""
+        if kd == "int":
+            return np.array([INTKEY[v] for v in values], dtype="int64")
+        if kd == "category":
+            cats = sorted(set(values) | ({"unused"} if data_side else {"zz"}))
+            return pd.Categorical(values, categories=cats)
+        return list(values)
 
     def frame():
         cols = {}
         for j, k in enumerate(case["keys"]):
-            cols[k] = [r["keys"][j] for r in case["rows"]]
+            cols[k] = keycol([r["keys"][j] for r in case["rows"]], True)
+        whole = all(b % 4 == 0 for r in case["rows"] for bb in r["bins"] for b in bb)
         for j, p in enumerate(params):
-            cols[f"{p}_start"] = [r["bins"][j][0] / 4 for r in case["rows"]]
-            cols[f"{p}_end"] = [r["bins"][j][1] / 4 for r in case["rows"]]
+            st, en = [r["bins"][j][0] / 4 for r in case["rows"]], [r["bins"][j][1] / 4 for r in case["rows"]]
+            if forms.get("bin_int") and whole:
+                st, en = np.array(st, dtype="int64"), np.array(en, dtype="int64")
+            cols[f"{p}_start"], cols[f"{p}_end"] = st, en
         for j, v in enumerate(case["values"]):
             cols[v] = [float(r["vals"][j]) for r in case["rows"]]
-        return pd.DataFrame(cols)
+        for j, v in enumerate(forms.get("extra_values", [])):           # data columns nobody asked for
+            cols[v] = [float(-1000 - 10 * i - j) for i in range(len(case["rows"]))]
+        names = list(cols)
+        if forms.get("col_shuffle") is not None:
+            random.Random(forms["col_shuffle"]).shuffle(names)
+        return pd.DataFrame({n: cols[n] for n in names})
+
+    def scalar_data():
+        form = forms.get("scalar_form") or ("list" if case["scalar_list"] else "float")
+        vals = case["scalar"]
+        conv = {"float": float, "int": int, "list": float, "tuple": float, "list_int": int,
+                "timedelta": lambda x: pd.Timedelta(days=x), "timestamp": lambda x: pd.Timestamp(2000, 1, 1) + pd.Timedelta(days=x)}[form]
+        if form in ("list", "tuple", "list_int"):
+            return (tuple if form == "tuple" else list)(conv(x) for x in vals)
+        return conv(vals[0])
+
+    def cell(v):
+        if isinstance(v, pd.Timedelta):
+            return int(v.value // (86400 * 10**9))
+        if isinstance(v, pd.Timestamp):
+            return int((v - pd.Timestamp(2000, 1, 1)).value // (86400 * 10**9))
+        if pd.isna(v):
+            return None
+        return int(v) if float(v) == int(v) else float(v)
+
+    out = {"error": None, "build": None, "calls": [], "badargs": []}
+
+    def lookup(ci, index, now, pop_now):
+        rec = {"call": ci, "year": int(now.year), "yday": int(now.timetuple().tm_yday), "idx": [int(i) for i in index],
+               "untracked": [] if pop_now is None or "tracked" not in pop_now else [int(i) for i in pop_now.index[~pop_now["tracked"].astype(bool)]]}
+        if lk.table is None:
+            rec["outcome"] = "no-table"
+        else:
+            try:
+                res = lk.table(index)
+                rec["outcome"] = "ok"
+                rec["type"] = type(res).__name__
+                df = res.to_frame() if isinstance(res, pd.Series) else res
+                rec["index"] = [int(i) for i in df.index]
+                rec["columns"] = [str(x) for x in df.columns]
+                rec["cells"] = [[cell(df.iloc[r, c]) for c in range(df.shape[1])] for r in range(df.shape[0])]
+            except Exception as e:  # noqa: BLE001
+                rec["outcome"] = "err:" + type(e).__name__
+        out["calls"].append(rec)
 
     class Pop(Component):
         @property
@@ -70,10 +137,13 @@ def _run(case):
         def on_initialize_simulants(self, pop_data):
             cols = {}
             for j, k in enumerate(case["keys"]):
-                cols[k] = [case["attrs"][int(i)]["keys"][j] for i in pop_data.index]
+                cols[k] = keycol([case["attrs"][int(i)]["keys"][j] for i in pop_data.index], False)
             for j, p in enumerate(params):
                 if p != "year":
-                    cols[p] = [case["attrs"][int(i)]["xs"][j] / 4 for i in pop_data.index]
+                    xs = [case["attrs"][int(i)]["xs"][j] / 4 for i in pop_data.index]
+                    if forms.get("attr_int") and all(a["xs"][j] % 4 == 0 for a in case["attrs"]):
+                        xs = np.array(xs, dtype="int64")
+                    cols[p] = xs
             self.population_view.update(pd.DataFrame(cols, index=pop_data.index))
 
     class L(Component):
@@ -86,22 +156,44 @@ def _run(case):
             return "lookup_probe"
 
         def setup(self, b):
+            self.clock = b.time.clock()
+            if forms.get("first_table"):
+                b.lookup.build_table(5, value_columns=["other"])              # an unrelated table built first (tables are numbered)
+            for kind, args in case.get("badargs", []):
+                try:
+                    data = {"frame": frame, "list": lambda: [1.0, 2.0], "empty_list": lambda: [], "none": lambda: None, "str": lambda: "abc",
+                            "empty_frame": lambda: frame().iloc[:0]}[kind]()
+                    b.lookup.build_table(data, **{k: seq(v) for k, v in args.items()})
+                    out["badargs"].append("ok")
+                except Exception as e:  # noqa: BLE001
+                    out["badargs"].append("err:" + type(e).__name__)
             try:
                 if case["kind"] == "scalar":
-                    data = case["scalar"] if case["scalar_list"] else case["scalar"][0]
-                    data = [float(x) for x in data] if case["scalar_list"] else float(data)
-                    self.table = b.lookup.build_table(data, value_columns=case["values"])
+                    self.table = b.lookup.build_table(scalar_data(), value_columns=seq(case["values"]))
                 else:
-                    self.table = b.lookup.build_table(
-                        frame(), key_columns=case["keys"], parameter_columns=params,
-                        value_columns=case["values"] if case["explicit_values"] else ())
+                    kwargs = {"key_columns": seq(case["keys"]), "parameter_columns": seq(params)}
+                    if case["explicit_values"]:
+                        kwargs["value_columns"] = seq(case["values"])
+                    elif forms.get("values_omitted") is False:
+                        kwargs["value_columns"] = ()
+                    if forms.get("omit_empty"):          # leave out the arguments that are empty (defaults of the interface)
+                        kwargs = {k: v for k, v in kwargs.items() if len(v)}
+                    self.table = b.lookup.build_table(frame(), **kwargs)
                 self.build = "ok"
             except Exception as e:  # noqa: BLE001
                 self.build = "err:" + type(e).__name__
+            if any(c.get("where") == "initializer" for c in case["calls"]):
+                # an initializer that creates no column, declared to need the attribute columns: the first use of the table
+                b.population.initializes_simulants(self.first_use, creates_columns=[], requires_columns=pop_cols)
+
+        def first_use(self, pop_data):
+            for ci, c in enumerate(case["calls"]):
+                if c.get("where") == "initializer":
+                    lookup(ci, pop_data.index, self.clock(), None)
 
     class Untracker(Component):
-        """writes tracked = False for some simulants at the start of a step and remembers the index the framework
-        hands to listeners (event.index: untracked simulants included)"""
+        """writes tracked = False for some simulants at the start of a step, remembers the index the framework hands to
+        listeners (event.index: untracked simulants included) and performs the calls made inside a listener"""
 
         def __init__(self):
             super().__init__()
@@ -113,6 +205,7 @@ def _run(case):
 
         def setup(self, b):
             self.view = b.population.get_view(["tracked"])
+            self.clock = b.time.clock()
 
         def on_time_step(self, e):
             self.nstep += 1
@@ -120,6 +213,16 @@ def _run(case):
                 if at == self.nstep and sims:
                     self.view.update(pd.Series(False, index=pd.Index(np.array(sims, dtype="int64")), name="tracked"))
             self.event_index = e.index
+            for ci, c in enumerate(case["calls"]):
+                if c.get("where") == "listener" and c["after"] == self.nstep:
+                    lookup(ci, resolve(c), self.clock(), sim.get_population(untracked=True))
+
+    def resolve(c):
+        if c["idx"] == "event":          # the index of the last time_step event (whole population before the first step)
+            return unt.event_index if unt.event_index is not None else sim.get_population(untracked=True).index
+        if c["idx"] == "all":
+            return sim.get_population(untracked=True).index
+        return pd.Index(np.array(c["idx"], dtype="int64"))
 
     SimulationContext._clear_context_cache()
     lk = L()
@@ -127,10 +230,10 @@ def _run(case):
     comps = ([Pop()] if pop_cols else []) + [lk, unt]
     y, m, d = case["start"]
     cfg = {"population": {"population_size": len(case["attrs"])},
-           "interpolation": {"extrapolate": case["extrapolate"]},
            "time": {"start": {"year": y, "month": m, "day": d}, "end": {"year": y + 30, "month": 1, "day": 1},
                     "step_size": case["step_days"]}}
-    out = {"error": None, "build": None, "calls": []}
+    if case.get("extrapolate") is not None:          # None: the key is left out, the framework default applies
+        cfg["interpolation"] = {"extrapolate": case["extrapolate"]}
     try:
         sim = SimulationContext(components=comps, configuration=cfg, logging_verbosity=0)
         sim.setup()
@@ -139,33 +242,8 @@ def _run(case):
         nsteps = max([c["after"] for c in case["calls"]] + [0])
         for k in range(nsteps + 1):
             for ci, c in enumerate(case["calls"]):
-                if c["after"] != k:
-                    continue
-                now = sim._clock.time
-                if c["idx"] == "event":          # the index of the last time_step event (whole population before the first step)
-                    index = unt.event_index if unt.event_index is not None else sim.get_population(untracked=True).index
-                elif c["idx"] == "all":
-                    index = sim.get_population(untracked=True).index
-                else:
-                    index = pd.Index(np.array(c["idx"], dtype="int64"))
-                pop_now = sim.get_population(untracked=True)
-                rec = {"call": ci, "year": int(now.year), "yday": int(now.timetuple().tm_yday), "idx": [int(i) for i in index],
-                       "untracked": [int(i) for i in pop_now.index[~pop_now["tracked"].astype(bool)]]}
-                if lk.table is None:
-                    rec["outcome"] = "no-table"
-                else:
-                    try:
-                        res = lk.table(index)
-                        rec["outcome"] = "ok"
-                        rec["type"] = type(res).__name__
-                        df = res.to_frame() if isinstance(res, pd.Series) else res
-                        rec["index"] = [int(i) for i in df.index]
-                        rec["columns"] = [str(x) for x in df.columns]
-                        rec["cells"] = [[None if pd.isna(v) else (int(v) if float(v) == int(v) else float(v)) for v in row]
-                                        for row in df.values.tolist()]
-                    except Exception as e:  # noqa: BLE001
-                        rec["outcome"] = "err:" + type(e).__name__
-                out["calls"].append(rec)
+                if c["after"] == k and c.get("where", "outside") == "outside":
+                    lookup(ci, resolve(c), sim._clock.time, sim.get_population(untracked=True))
             if k < nsteps:
                 sim.step()
     except Exception as e:  # noqa: BLE001
